@@ -1747,11 +1747,18 @@ func assigns(s ast.Stmt, v string) bool {
 
 // ---------------------------------------------------------------- output
 
+// cmt makes a text safe inside a Coq comment (no nested comment brackets, no string quotes).
+func cmt(s string) string {
+	s = strings.ReplaceAll(s, "(*", "( *")
+	s = strings.ReplaceAll(s, "*)", "* )")
+	return strings.ReplaceAll(s, "\"", "'")
+}
+
 func (tr *Translator) output(title string, stateRepr string) (string, error) {
 	var b strings.Builder
 	b.WriteString("(* GENERATED by tools/go2coq from the Go sources -- do not edit; regenerated on every check run.\n")
-	b.WriteString("   " + title + "\n")
-	b.WriteString("   " + stateRepr + "\n")
+	b.WriteString("   " + cmt(title) + "\n")
+	b.WriteString("   " + cmt(stateRepr) + "\n")
 	b.WriteString("   Sources (git blob hash of the file as read):\n")
 	var srcs []string
 	for s := range tr.sources {
@@ -1763,7 +1770,7 @@ func (tr *Translator) output(title string, stateRepr string) (string, error) {
 	}
 	b.WriteString("   Functions:\n")
 	for _, d := range tr.defs {
-		b.WriteString("     " + d.Name + "  <-  " + strings.SplitN(d.Comment, "\n", 2)[0] + "\n")
+		b.WriteString("     " + d.Name + "  <-  " + cmt(strings.SplitN(d.Comment, "\n", 2)[0]) + "\n")
 	}
 	b.WriteString("*)\n")
 	b.WriteString("From Coq Require Import List ZArith NArith String Bool.\n")
@@ -1774,7 +1781,7 @@ func (tr *Translator) output(title string, stateRepr string) (string, error) {
 		tname := strings.TrimPrefix(named, p.Name+".")
 		ts := p.Types[tname]
 		pos := p.Fset.Position(ts.Pos())
-		b.WriteString(fmt.Sprintf("(* %s:%d  type %s %s -- constants as Z *)\n", pos.Filename, pos.Line, tname, exprString(p.Fset, ts.Type)))
+		b.WriteString(fmt.Sprintf("(* %s:%d  type %s %s -- constants as Z *)\n", pos.Filename, pos.Line, tname, cmt(exprString(p.Fset, ts.Type))))
 		n := 0
 		for _, cn := range p.ConstOrder {
 			c := p.Consts[cn]
@@ -1829,7 +1836,7 @@ func (tr *Translator) output(title string, stateRepr string) (string, error) {
 		b.WriteString("\n")
 	}
 	for _, d := range tr.defs {
-		b.WriteString("(* " + d.Comment + " *)\n")
+		b.WriteString("(* " + cmt(d.Comment) + " *)\n")
 		b.WriteString("Definition " + d.Name)
 		for _, p := range d.Params {
 			b.WriteString(" (" + p[0] + " : " + p[1] + ")")
